@@ -16,7 +16,7 @@ import types
 
 _real_time = _time.time
 _real_sleep = _time.sleep
-_state = {'loop': None, 'base_us': 0, 'jump_us': 0, 'read_lat_us': 1, 'reads': 0}
+_state = {'loop': None, 'base_us': 0, 'jump_us': 0, 'read_lat_us': 1, 'reads': 0, 'tz_us': 0}
 
 
 def wall_us() -> int:
@@ -50,7 +50,9 @@ class _VDateTime(_dt.datetime):
         _state['loop'].advance_us(_state['read_lat_us'])
         now = wall_datetime()
         if tz is not None:
-            now = now.replace(tzinfo=tz)
+            now = now.replace(tzinfo=tz)    # (only UTC is ever asked for)
+        else:
+            now += _dt.timedelta(microseconds=_state['tz_us'])      # local time of the virtual zone
         return now
 
 
@@ -67,10 +69,17 @@ _saved = {}
 
 
 def install(loop, base_unix_us: int = 1_000_000_000_000, *, cron: bool = False,
-            read_lat_us: int = 1) -> None:
+            read_lat_us: int = 1, tz_hours: int = 0) -> None:
+    """tz_hours: offset of the virtual local zone from UTC (the process zone is set to match)."""
     _state.update(loop=loop, base_us=int(base_unix_us), jump_us=0,
-                  read_lat_us=read_lat_us, reads=0)
+                  read_lat_us=read_lat_us, reads=0, tz_us=tz_hours * 3600 * 1_000_000)
     _time.time = _vtime
+    if tz_hours or 'TZ' in _saved:
+        import os
+        _saved.setdefault('TZ', os.environ.get('TZ'))
+        # POSIX notation: 'VTZ-14' is 14 hours east of Greenwich
+        os.environ['TZ'] = 'UTC' if not tz_hours else f"VTZ{-tz_hours:+d}"
+        _time.tzset()
     if cron:
         import edzed.blocklib.cron as cronmod
         if 'cron' not in _saved:
@@ -86,6 +95,15 @@ def set_loop(loop) -> None:
 def uninstall() -> None:
     _time.time = _real_time
     _state['loop'] = None
+    _state['tz_us'] = 0
+    if 'TZ' in _saved:
+        import os
+        old = _saved.pop('TZ')
+        if old is None:
+            os.environ.pop('TZ', None)
+        else:
+            os.environ['TZ'] = old
+        _time.tzset()
     if 'cron' in _saved:
         import edzed.blocklib.cron as cronmod
         cronmod.dt, cronmod.time = _saved.pop('cron')
